@@ -98,6 +98,8 @@ func runC18(c *an.Ctx) {
 	// --- C18.a
 	checkNoDroppedRequest(c, "C18.a", s)
 	checkDispatcher(c, "C18.a", s)
+	checkCollectsUntilComplete(c, "C18.b", s.sesGet)
+	checkStartRenewsContext(c, "C18.a", c.P.Method("p2p", "Exchange", "Start"), "p2p.(*Exchange)")
 	checkScoreDecay(c, "C18.d")
 
 	// --- C18.b remainder re-request
